@@ -149,3 +149,28 @@ CHECKS["C09"] = dict(
     assumptions=VT,
     parts=vparts("TestVerifC09"),
 )
+CHECKS["C10"] = dict(
+    level="fault_enumeration",
+    technique="runtime monitoring with fault injection: (a) every dial/task outcome sequence to depth 4/6 through the real Dialer.Dial checked against a policy automaton in virtual time; (b) faults injected into a running Advertiser/Monitor with teardown, recovery and half-alive oracles; race detector pass",
+    rule="(policy) all sequences over dial outcomes {ok, link-not-ready, syscall, permission, other} and task outcomes {nil, link-change, syscall, permission, timeout-exhaustion, other, cancelled} that respect the grammar, length ≤4 (quick) / ≤6 (thorough), "
+         "× cancellation points, plus the 50-attempt exhaustion path and random sequences ≤60; (task) faults {read syscall/permission/other, 1…6 consecutive receive time-outs, write nobufs/permission/other, link event, watcher close} × unicast_only × latency × "
+         "seeded instants, for advertiser and monitor; non-trivial = sequence with ≥1 failure outcome / every injected fault; distinct = sequence or scenario id",
+    exhaustive={"quick": True, "thorough": True},
+    assumptions=VT + ["a transmit error on the initial RA of a generation may either end the task or re-dial (don't-care; teardown is still checked)"],
+    parts=[
+        dict(name="task", pkg="internal/corerad", test="TestVerifC10", shards=S16, env={"VERIF_PART": "task"}, **DET),
+        dict(name="race", pkg="internal/corerad", test="TestVerifC10", race=True, shards=S4, gomaxprocs=4, env={"VERIF_PART": "race", "VERIF_TIMING": "0"}),
+    ],
+)
+CHECKS["C10"]["parts"].insert(0, dict(name="policy", pkg="internal/system", test="TestVerifDial", shards=S16, env={"VERIF_PROP": "C10"}, **DET))
+
+CHECKS["C11"] = dict(
+    level="fault_enumeration",
+    technique="runtime monitoring with fault injection: open/cleanup/autoconf event monitor over the real Dialer.Dial + setAutoconf under enumerated dial/task/sysctl-fault scripts (virtual time), and the real dial() with real sockets and sysctls in a private network namespace",
+    rule="(inproc) the C10 script enumeration × initial autoconf {0,1} plus get/set/restore faults {none, permission, not-exist, other} on the first and second connection × task outcomes, and random scripts with random fault plans; "
+         "(netns) the real Dialer.dial in `unshare -n` with a veth pair, faults injected by a State wrapper, sockets/multicast membership/sysctl sampled from /proc at quiescent points; non-trivial = script with ≥1 failure or sysctl fault; distinct = script id",
+    exhaustive={"quick": True, "thorough": True},
+    assumptions=["in-process part: DialFunc mimics dial() around the real setAutoconf and the real Dial loop; the real dial() runs only in the netns part",
+                 "failing setsockopt/join inside dialNDP cannot be injected (DESIGN.md §6)"],
+    parts=[dict(name="inproc", pkg="internal/system", test="TestVerifDial", shards=S16, env={"VERIF_PROP": "C11"}, **DET)],
+)
